@@ -132,6 +132,7 @@ package client
 // ---- the step for a packet from the gateway (C17, C25, C27) ----
 //@ func (*Client).handlePacket
 //@   nopanic [C25]
+//@   tags [C23]
 //@   requires [C25] inv: cInv(c) && decoded(pktx)
 //@   assigns *
 //@   let w0 = old(c.tryN)
@@ -167,9 +168,9 @@ package client
 
 //@ func (*Client).publish
 //@   nopanic [C25]
+//@   tags [C23]
 //@   requires [C25] inv: apiInv(c)
 //@   requires [C17] ghost_counter_bound: 0 <= c.tryN && c.tryN < 0x1000000000000 // fewer than 2^48 packets sent so far (the trace index is a ghost)
-//@   requires [C23] fits: len(payload) <= 8183
 //@   rely [C25] inv: apiInv(c)
 //@   rely [C25] exchange_structure_immutable: clEntryWF(c, tx)
 //@   rely [C17] traces_append_only: c.tryN >= old(c.tryN) && (forall i int :: i < old(c.tryN) ==> c.try[i] == old(c.try[i]))
@@ -199,8 +200,8 @@ package client
 
 //@ func (*Client).subscribe
 //@   nopanic [C25]
+//@   tags [C23]
 //@   requires [C25] inv: apiInv(c)
-//@   requires [C23] fits: len(topicName) <= 8183
 //@   rely [C25] inv: apiInv(c)
 //@   rely [C25] exchange_structure_immutable: clEntryWF(c, tx)
 //@   rely [C17] traces_append_only: c.tryN >= old(c.tryN) && (forall i int :: i < old(c.tryN) ==> c.try[i] == old(c.try[i]))
@@ -218,8 +219,8 @@ package client
 
 //@ func (*Client).unsubscribe
 //@   nopanic [C25]
+//@   tags [C23]
 //@   requires [C25] inv: apiInv(c)
-//@   requires [C23] fits: len(topicName) <= 8183
 //@   rely [C25] inv: apiInv(c)
 //@   rely [C25] exchange_structure_immutable: clEntryWF(c, tx)
 //@   at Store.0 before let tx = arg(2)
@@ -233,8 +234,8 @@ package client
 
 //@ func (*Client).Register
 //@   nopanic [C25]
+//@   tags [C23]
 //@   requires [C25] inv: apiInv(c)
-//@   requires [C23] fits: len(topic) <= 8184
 //@   rely [C25] inv: apiInv(c)
 //@   rely [C25] exchange_structure_immutable: clEntryWF(c, tx)
 //@   at Store.0 before let tx = arg(2)
@@ -248,6 +249,7 @@ package client
 
 //@ func (*Client).Ping
 //@   nopanic [C25]
+//@   tags [C23]
 //@   requires [C25] inv: apiInv(c)
 //@   rely [C25] inv: apiInv(c)
 //@   rely [C25] exchange_structure_immutable: clTypedWF(c, tx)
@@ -261,6 +263,7 @@ package client
 
 //@ func (*Client).Sleep
 //@   nopanic [C25]
+//@   tags [C23]
 //@   requires [C25] inv: apiInv(c)
 //@   rely [C25] inv: apiInv(c)
 //@   rely [C25] exchange_structure_immutable: clTypedWF(c, tx)
@@ -274,6 +277,7 @@ package client
 
 //@ func (*Client).Disconnect
 //@   nopanic [C25]
+//@   tags [C23]
 //@   requires [C25] inv: apiInv(c)
 //@   rely [C25] inv: apiInv(c)
 //@   rely [C25] exchange_structure_immutable: clTypedWF(c, tx)
@@ -292,6 +296,7 @@ package client
 // CONNECT or an AUTH is the sweep obligation sweep.auth_only_in_connect.)
 //@ func (*Client).Connect
 //@   nopanic [C25]
+//@   tags [C23]
 //@   requires [C25] inv: apiInv(c)
 //@   rely [C25] inv: apiInv(c)
 //@   rely [C25] exchange_structure_immutable: clTypedWF(c, tx)
@@ -327,7 +332,6 @@ package client
 //@   nopanic [C25]
 //@   requires [C25] inv: apiInv(c)
 //@   requires [C17] ghost_counter_bound: 0 <= c.tryN && c.tryN < 0x1000000000000
-//@   requires [C23] fits: len(payload) <= 8183
 //@   guarded [C29] registeredTopicsLock: registeredTopics
 //@   assigns *
 //@   at publish.0 before assert [C32] short_topic_as_its_two_octets: len(topic) == 2 ==> arg(1) == 2 && arg(2) == (uint16(topic[0]) << 8) | uint16(topic[1])
@@ -336,13 +340,11 @@ package client
 //@   nopanic [C25]
 //@   requires [C25] inv: apiInv(c)
 //@   requires [C17] ghost_counter_bound: 0 <= c.tryN && c.tryN < 0x1000000000000
-//@   requires [C23] fits: len(payload) <= 8183
 //@   assigns *
 //@   at publish.0 before assert [C32] predefined_id_as_given: arg(1) == 1 && arg(2) == topicID
 //@ func (*Client).Subscribe
 //@   nopanic [C25]
 //@   requires [C25] inv: apiInv(c)
-//@   requires [C23] fits: len(topic) <= 8183
 //@   assigns *
 //@   at subscribe.0 before assert [C32] short_topic_as_its_two_octets: arg(2) == 2 && arg(3) == (uint16(topic[0]) << 8) | uint16(topic[1])
 //@   at subscribe.1 before assert [C32] longer_topic_by_name: arg(1) == topic && arg(2) == 0
